@@ -99,12 +99,24 @@ func runWriteCase(payloads []string, oracle []wStep) *tcpCase {
 	}
 	var plan []memconn.WriteStep
 	ctxDoneAt := map[int]bool{} // index of the send (in order of oracle consumption) that finds its context expired
-	for _, s := range oracle {
+	var curCancel context.CancelFunc
+	midCtx := 0 // context ends that happened in the middle of a send (behind a timed-out write)
+	for i, s := range oracle {
 		if s.Kind == "ctxdone" {
 			plan = append(plan, memconn.WriteStep{Accept: -2}) // marker, handled below
 			continue
 		}
-		plan = append(plan, memconn.WriteStep{Accept: s.Accept, Timeout: s.Res == "timeout", Fail: s.Res == "fatal"})
+		st := memconn.WriteStep{Accept: s.Accept, Timeout: s.Res == "timeout", Fail: s.Res == "fatal"}
+		if s.Res == "timeout" && i+1 < len(oracle) && oracle[i+1].Kind == "ctxdone" {
+			// the context of the send in progress ends while this write is timing out: the loop finds it expired
+			st.Hook = func() {
+				if curCancel != nil {
+					curCancel()
+				}
+				midCtx++
+			}
+		}
+		plan = append(plan, st)
 	}
 	_ = ctxDoneAt
 	// ctxdone steps are only generated as the first step of a send: translate by cancelling that send's context
@@ -117,10 +129,12 @@ func runWriteCase(payloads []string, oracle []wStep) *tcpCase {
 			cancel()
 			consumed++
 		}
+		curCancel = cancel
 		before := countWrites(cmem)
+		midBefore := midCtx
 		err := t.Send(ctx, textMessage(fmt.Sprintf("m%d", i), p))
 		cancel()
-		consumed += countWrites(cmem) - before
+		consumed += countWrites(cmem) - before + (midCtx - midBefore)
 		c.Oks = append(c.Oks, err == nil)
 		// the following sends are made all the same: after a failed one they must fail and write nothing
 	}
@@ -501,6 +515,13 @@ func init() {
 			if k%3 == 0 {
 				add(runWriteCase([]string{"ab", "cd", "ef"}, []wStep{{"conn", -1 + 1 + flen, "ok"}, {"conn", k, "timeout"}, {"conn", 1, "timeout"}, {"conn", 0, "timeout"}}), true)
 			}
+		}
+		// the context of a send ends in the middle of it (behind a partial write that timed out); the connection is
+		// fine afterwards, and more sends follow
+		for k := 0; k <= flen; k += 3 {
+			add(runWriteCase([]string{"ab", "cd"}, []wStep{{"conn", k, "timeout"}, {Kind: "ctxdone"}}), true)
+			add(runWriteCase([]string{"ab", "ab", "cd"}, []wStep{{"conn", k, "timeout"}, {Kind: "ctxdone"}}), true)
+			add(runWriteCase([]string{"ab", "cd", "ef"}, []wStep{{"conn", flen, "ok"}, {"conn", k, "timeout"}, {"conn", 2, "timeout"}, {Kind: "ctxdone"}}), true)
 		}
 		add(runWriteCase([]string{"ab"}, []wStep{{Kind: "ctxdone"}}), true)
 		add(runWriteCase([]string{"ab", "cd"}, []wStep{{"conn", flen, "ok"}, {Kind: "ctxdone"}}), true)
